@@ -3,6 +3,7 @@ package simrt
 import (
 	"fmt"
 	"hash/fnv"
+	"os"
 	"runtime"
 	"sort"
 	"strings"
@@ -231,6 +232,9 @@ func (s *Sim) Note(format string, args ...any) {
 	h.Write([]byte(msg))
 	s.digest = h.Sum64()
 	s.mu.Unlock()
+	if schedLog != nil {
+		fmt.Fprintf(schedLog, "%d note %s\n", s.Steps, msg)
+	}
 	s.Tracef("%s", msg)
 }
 
@@ -760,7 +764,18 @@ func (s *Sim) loop() {
 	}
 }
 
+var schedLog *os.File
+
+func init() {
+	if p := os.Getenv("VERIF_SCHEDLOG"); p != "" {
+		schedLog, _ = os.Create(p)
+	}
+}
+
 func (s *Sim) noteSwitch(t *Task) {
+	if schedLog != nil {
+		fmt.Fprintf(schedLog, "%d %d %s budget=%d\n", s.Steps, t.ID, t.Name, s.budget)
+	}
 	s.digest = (s.digest ^ uint64(t.ID+1)) * 0x100000001b3
 	s.digest = (s.digest ^ uint64(s.Steps)) * 0x100000001b3
 }
